@@ -177,6 +177,8 @@ enum Case {
     FromFnByVal { n: usize, panic_at: usize },
     /// map!/from_fn!/map_!/from_fn_!/collect_const! value checks for element kind 0=u32 1=String 2=Tracked
     Values { n: usize, kind: u8 },
+    /// value checks of all four macros at a large length (index into [16, 17, 33, 64, 100])
+    ValuesBig { which: usize },
     /// zero-sized Drop elements: take `front`/`back` from a consumer of n tokens (dropping what was taken),
     /// `clones` clones, push `pushed` tokens into a builder, map_! the rest: every token dropped exactly once
     Zst { n: usize, front: usize, back: usize, clones: usize, pushed: usize },
@@ -184,6 +186,14 @@ enum Case {
 
 macro_rules! ensure {
     ($c:expr, $($fmt:tt)*) => { if !$c { return Err(format!($($fmt)*)); } };
+}
+
+/// lengths beyond the const-generic dispatch table of the histories: value checks only
+fn values_big<const N: usize>() -> Result<bool, String> {
+    let r = values::<N>(0)?;
+    let _ = values::<N>(1)?;
+    let _ = values::<N>(2)?;
+    Ok(r)
 }
 
 macro_rules! with_n {
@@ -559,6 +569,13 @@ fn run_case(c: &Case) -> (Result<bool, String>, Vec<String>) {
         Case::FromFnByVal { n, panic_at } => with_n!(*n, from_fn_by_val, *panic_at),
         Case::Values { n, kind } => with_n!(*n, values, *kind),
         Case::Zst { n, front, back, clones, pushed } => with_n!(*n, zst_run, *front, *back, *clones, *pushed),
+        Case::ValuesBig { which } => match which {
+            0 => values_big::<16>(),
+            1 => values_big::<17>(),
+            2 => values_big::<33>(),
+            3 => values_big::<64>(),
+            _ => values_big::<100>(),
+        },
     };
     let complete = matches!(r, Ok(true));
     let l = ledger_verdict(complete);
@@ -611,6 +628,7 @@ fn eval(ctx: &mut Ctx, c11: bool, c: Case) {
             }
             Case::Values { n, kind } => *n >= 2 && *kind >= 1 || *n == 0,
             Case::Zst { n, front, back, .. } => front + back < *n,
+            Case::ValuesBig { .. } => true,
         };
         if nt {
             let cls = match &c {
@@ -620,6 +638,7 @@ fn eval(ctx: &mut Ctx, c11: bool, c: Case) {
                 Case::FromFnByVal { .. } => "from_fn_",
                 Case::Values { .. } => "values",
                 Case::Zst { .. } => "zst_drop",
+                Case::ValuesBig { .. } => "values_big",
             };
             ctx.nontrivial(cls, &c, || json!(c));
         }
@@ -644,6 +663,9 @@ fn explore(ctx: &mut Ctx, c11: bool, miri: bool) {
             eval(ctx, c11, Case::MapByVal { n, panic_at });
             eval(ctx, c11, Case::FromFnByVal { n, panic_at });
         }
+    }
+    for which in 0..(if miri { 1 } else { 5 }) {
+        eval(ctx, c11, Case::ValuesBig { which });
     }
     for n in 0..=maxn {
         for front in 0..=(n + 1).min(3) {
